@@ -561,6 +561,16 @@ func runPW(c *fw.Ctx, idx int, r *fw.Rand) {
 			}
 			if w.waitCh(scanDone) {
 				c.Count("retention_start_returned", 1)
+				if scanMode == 1 {
+					// The scanner was in the pause before its first scan when shutdown was requested:
+					// it must leave from there, not begin a scan (added after seeded change C19-12).
+					select {
+					case <-vs.ch:
+						w.viol("C19:retention-scan-started-after-shutdown", "the retention scanner was waiting for its first scan when shutdown was requested; it walked the store (VisitMailboxes) before Start returned")
+					default:
+						c.Count("retention_left_from_pause_without_scanning", 1)
+					}
+				}
 				joined := mk()
 				go func() { scanner.Join(); close(joined) }()
 				if w.waitCh(joined) {
